@@ -94,6 +94,7 @@ class _InvFlow(MustFlow):
         self.aliases = {}
         self.unresolved = []
         self.markers = []           # statements that write declared state
+        self.method_owner = None    # class defining the method being walked (for super())
 
     def _owner_of(self, target):
         """Attribute target X.token -> normalised text of X with local aliases resolved."""
@@ -145,6 +146,15 @@ class _InvFlow(MustFlow):
                     else:
                         self.unresolved.append(ntext(node))
         for n in ast.walk(node):
+            if isinstance(n, ast.Call) and isinstance(n.func, ast.Attribute) and self.depth < 2 and \
+                    ntext(n.func.value) == 'super()' and self.repo is not None and self.method_owner is not None:
+                callee = self.repo.resolve_method(self.cls, n.func.attr, after=self.method_owner)
+                if callee is not None and callee.name not in CLOSURE:
+                    for st in exit_states(self.repo, self.cls, callee, self.owner, (), self.depth + 1):
+                        pass
+                    facts = exit_facts(self.repo, self.cls, callee, self.owner, self.depth + 1)
+                    state = state | frozenset(f for f in facts if f[0] in ('inv', 'guard'))
+                continue
             if isinstance(n, ast.Call) and isinstance(n.func, ast.Attribute) and self.depth < 2:
                 recv = ntext(n.func.value)
                 if isinstance(n.func.value, ast.Name) and n.func.value.id in self.aliases:
@@ -176,6 +186,7 @@ OWNER_CLASS = {'dro.Ambiguity': 'dro.Model', 'lp.Scen': 'dro.Model', 'lp.DecVar'
 def exit_states(repo, cls, fi, owner, markers=(), depth=0):
     fl = _InvFlow(repo, cls, owner, depth)
     fl.markers = list(markers)
+    fl.method_owner = fi.cls
     o = fl.run(body_stmts(fi), {'nowrite'})
     exits = [s for s, _ in o.returns] + ([o.normal] if o.normal is not None else [])
     exits = [e for e in exits if e is not None]
